@@ -262,6 +262,50 @@ def op_mode(mode):
     sx.reach("mode-set")
 
 
+def op_mode_retry(mode):
+    """the first query of the supported modes (0x6502) goes unanswered; once the drive answers again, an advertised
+    mode is accepted and written (nothing wrong may be remembered from the failed attempt)"""
+    node = _node()
+    drive = D.Drive(D.SOD)
+    sx.env().tick = 0.05
+    _attach_sdo(node, drive)
+    E = sx.mod("canopen.sdo.exceptions")
+    fail = {"n": 1}
+    inner = node.sdo.upload
+
+    def upload(index, subindex):
+        if index == 0x6502 and fail["n"] > 0:
+            fail["n"] -= 1
+            raise E.SdoCommunicationError("No SDO response received")
+        return inner(index, subindex)
+    node.sdo.upload = upload
+    drive.supported = sx.fresh_int("supported", 0, 0xFFFFFFFF)
+    code, bit = D.MODES[mode]
+    sup = ((drive.supported >> bit) & 1) == 1
+    key = "C19/op_mode_retry/%s" % mode
+    try:
+        node.op_mode = mode              # may fail or do nothing: the drive did not answer
+    except Exception as e:
+        sx.observe("exc1", C.exc_name(e))
+    sx.prove(len(drive.mode_writes) == 0 or bool(sup), "mode written although support was never confirmed",
+             key + "/first-wrote")
+    n0 = len(drive.mode_writes)
+    try:
+        node.op_mode = mode
+    except TypeError:
+        sx.prove(sx.not_(sup), "advertised mode refused after an earlier unanswered query", key + "/refused")
+        sx.reach("mode-retry-refused")
+        return
+    except Exception as e:
+        sx.observe("exc2", C.exc_name(e))
+        sx.fail("second assignment raised %s" % C.exc_name(e), key + "/raises")
+        return
+    sx.prove(sup, "mode not advertised but accepted", key + "/accepted")
+    sx.prove(len(drive.mode_writes) > n0 and drive.mode_writes[-1] == code, "mode written as its CiA 402 code",
+             key + "/code")
+    sx.reach("mode-retry")
+
+
 def op_mode_pdo(first, second, layout="shared"):
     """Operation mode carried by PDO: 0x6060 shares RPDO1 with the controlword, 0x6061 comes with the statusword in
     an event-driven TPDO1.  Two assignments (each accepted or refused according to a symbolic support mask), then a
@@ -363,6 +407,7 @@ def jobs(tier):
             out.append(dict(func="bad_target", params=dict(initial=ini, target=tgt)))
     for mode in D.MODES:
         out.append(dict(func="op_mode", params=dict(mode=mode)))
+        out.append(dict(func="op_mode_retry", params=dict(mode=mode)))
     names = list(D.MODES)
     pairs = [(names[i], names[(i + 1) % len(names)]) for i in range(len(names))] if tier == "quick" else \
         [(a, b) for a in names for b in names if a != b]
@@ -396,7 +441,7 @@ META = dict(
     stubs=["struct", "time.monotonic", "threading.Condition", "sdo.upload/download replaced on the instance (framing is "
            "C01's business)", "Network.send_message replaced on the instance"],
     required_reach=["decode-unknown"] + ["decode-" + s for s in D.ALL_STATES] +
-                   ["refused", "commanded", "bad-target-refused", "mode-refused", "mode-set", "sequence", "mode-pdo", "mode-pdo-set", "mode-pdo-refused"],
+                   ["refused", "commanded", "bad-target-refused", "mode-refused", "mode-set", "sequence", "mode-pdo", "mode-pdo-set", "mode-pdo-refused", "mode-retry", "mode-retry-refused"],
     limits=dict(quick=dict(max_decisions=20000), thorough=dict(max_decisions=20000, crosscheck_every=2, crosscheck_max=30)),
     validate_every=dict(quick=2, thorough=1),
 )
